@@ -407,6 +407,7 @@ func (c *c08) exec(t *testing.T, prog *hx.Program, dec *simrt.Decider, verbose b
 			for _, lr := range c.readers {
 				lr.cancel()
 			}
+			h.s.SetTimeSkips(false)
 			simrt.Sleep(time.Second)
 			c.finishReaders()
 			c.verifyReaders("C08/final")
